@@ -80,4 +80,11 @@ func (c *validatorListConstructor) appendNodeValidators(node schema.Node) {
 	}
 
 	c.list = append(c.list, v)
+
+	// An object or an array with `nullable: true` also admits null.
+	if t := node.Type(); t == json.TypeArray || t == json.TypeObject {
+		if constr := node.Constraint(constraint.NullableConstraintType); constr != nil {
+			c.list = append(c.list, newNullValidator(node, c.parent))
+		}
+	}
 }
